@@ -81,7 +81,10 @@ LAYOUTS = [
     {"name": "subdirs", "path": lambda i: f"/w/d{i}/f{i}.djinni", "lit": lambda a, b: f"../d{b}/f{b}.djinni", "inc": []},
     {"name": "include", "path": lambda i: ("/w/f0.djinni" if i == 0 else f"/w/inc/f{i}.djinni"), "lit": lambda a, b: f"f{b}.djinni", "inc": ["inc"]},
     {"name": "cwd-relative", "path": lambda i: f"/w/sub/f{i}.djinni", "lit": lambda a, b: f"sub/f{b}.djinni", "inc": []},
+    # file names that differ only in letter case are different files
+    {"name": "letter-case", "path": lambda i: f"/w/{CASED[i]}.djinni", "lit": lambda a, b: f"{CASED[b]}.djinni", "inc": []},
 ]
+CASED = ["main", "Shapes", "shapes", "SHAPES", "sHapes", "shapeS"]
 
 
 def build(n, es, layout, missing=None):
@@ -124,11 +127,11 @@ def run(ctx):
 
     for n in (1, 2, 3):
         for es in graphs(n):
-            lays = LAYOUTS if (n < 3 or not ctx.quick) else [LAYOUTS[len(es) % 4]]
+            lays = LAYOUTS if (n < 3 or not ctx.quick) else [LAYOUTS[len(es) % len(LAYOUTS)]]
             for lay in lays:
                 add(n, es, lay, "graph")
     for es in graphs(4, r, ctx.n(150, 0)) if ctx.quick else graphs(4):
-        add(4, es, LAYOUTS[len(es) % 4] if ctx.quick else r.choice(LAYOUTS), "graph")
+        add(4, es, LAYOUTS[len(es) % len(LAYOUTS)] if ctx.quick else r.choice(LAYOUTS), "graph")
     if not ctx.quick:
         for es in graphs(5, r, 3000):
             add(5, es, r.choice(LAYOUTS), "graph")
@@ -142,7 +145,7 @@ def run(ctx):
             seen.add(tuple(es))
             for i in range(n):
                 for at in (0, 5):
-                    add(n, es, LAYOUTS[(i + at) % 4], "missing", missing=(i, at))
+                    add(n, es, LAYOUTS[(i + at) % len(LAYOUTS)], "missing", missing=(i, at))
     # search order: copies of f1 with distinguishable content at every candidate location
     locs = {"literal": "/w/x/f1.djinni", "importer-dir": "/w/main/x/f1.djinni", "inc1": "/w/i1/x/f1.djinni", "inc2": "/w/i2/x/f1.djinni"}
     order = ["literal", "importer-dir", "inc1", "inc2"]
